@@ -532,7 +532,7 @@ def run_case(idx, rng, P, rep):
             text2 = param.script_repr(obj)
         except Exception as e:   # noqa: BLE001
             # (printing itself fails: whatever the innermost frame is)
-            rep.violation(f'C20/print-raised/{classify(vals, "print-raised")}', f'printing raised {type(e).__name__}: {e}', case=dict(desc, state=state_desc))
+            rep.violation(f'C20/{classify(vals, "print-raised")}', f'printing raised {type(e).__name__}: {e}', case=dict(desc, state=state_desc))
             continue
         rep.count('pprint_evals')
         judge('pprint', text, lambda: eval(text, dict(evalns)))
